@@ -350,16 +350,27 @@ def run_frames(case):
             if "caltrack" not in name:
                 fd = f0.reset_index(names="datetime")
                 expanded.append((name + "[datetime column]", ctor, [fd]))
+            for dt in ("Float64", "float32"):
+                try:
+                    expanded.append((name + f"[{dt} columns]", ctor, [f0.astype(dt)]))
+                except Exception:
+                    pass
         else:
             expanded.append((name, ctor, args))
     entries = expanded
     outcomes = []
+    refused = []
     for name, ctor, args in entries:
         args = [a.copy(deep=True) for a in args]
         before = [F.fp(a) for a in args]
         try:
             d = ctor(*args)
         except Exception as exc:
+            if "columns]" in name:
+                # an input dtype the data class refuses (hourly classes cannot interpolate into float32 columns under pandas 3):
+                # acceptance of inputs is C10/C17's subject; nothing was constructed, so there is no side effect to judge
+                refused.append(f"{name}: {type(exc).__name__}")
+                continue
             viol.append({"clause": "constructor_raised", "key": dict(key0, entry=name), "detail": f"{type(exc).__name__}: {exc}"})
             continue
         checks += 1
@@ -399,7 +410,8 @@ def run_frames(case):
             viol.append({"clause": "handed_out_frame_not_independent", "key": dict(key0, entry=name),
                          "detail": "writing into a frame returned by data.df changed the data object"})
         outcomes.append(fa)
-    return {"behaviour": [family, len(entries), len(viol)], "violations": viol, "stats": {"entry_points": checks}}
+    return {"behaviour": [family, len(entries), len(viol), refused], "violations": viol,
+            "stats": {"entry_points": checks, "input_forms_refused_by_data_class": len(refused)}}
 
 
 def run_prediction_frames(case):
